@@ -144,6 +144,38 @@ Example C20_restore_example :
             temp_storage exT s = [([2; 5; 6], 8); ([0], 7); ([1], 7)].
 Proof. split; [exact exT_rank|]. split; [exact exT_fuel|]. split; [exact ex_ops_genuine|exact ex_run_completes]. Qed.
 
+(* ---------- the pool after a restart (added after the fourth independent mutation round) ---------- *)
+
+(* In every reachable state of the repaired mechanism — in particular right after a restart, which re-derives the pool by
+   traversing what is stored — the pool is EXACT: it holds (path, hash) iff the hash is missing and the pair is the root's
+   or the child pair, along that path, of a restored (path, parent) pair.  Every path of a missing node below EVERY path of
+   its stored parent, none lost, none invented: what an uninterrupted run holds at the same database. *)
+Theorem C20_restart_pool_exact : forall (T : tree) (root : hash) (rank : hash -> nat),
+  (forall h n l c, lookup T h = Some n -> In (l, c) (kids n) -> (rank c < rank h)%nat) ->
+  (forall h n l c, lookup T h = Some n -> In (l, c) (kids n) -> exists nc, lookup T c = Some nc) ->
+  (exists n, lookup T root = Some n) ->
+  forall fuel ops s,
+  fuel_ok T rank fuel -> Forall (genuine_op T) ops ->
+  Restore.run true true fuel T root ops (Restore.init root) = Some s ->
+  forall x, In x (pool s) <-> rootkid T root (store s) x /\ stored (store s) (snd x) = false.
+Proof. exact restart_pool_exact. Qed.
+Print Assumptions C20_restart_pool_exact.
+
+(* the traversal that keeps only the children of the LAST path of a node stored at several paths: a branch with two
+   same-hash interior children, restart after the twin is stored and before its leaf is — one path of the leaf is lost, the
+   pool still empties, the leaf is stored with count 1 instead of 2 and a storage item is missing *)
+Theorem C20_restart_overwrite_refuted :
+  exists s, tw_before = Some s /\
+    (exists s', restart true 5 twT 1 s = Some s' /\ pool s' = [([0; 5], 3); ([1; 5], 3)] /\
+       exists s'', Restore.run true true 5 twT 1 [ODeliver [tw 3]] s' = Some s'' /\ pool s'' = [] /\ count_of s'' 3 = 2%nat /\
+                   temp_storage twT s'' = [([0; 5], 9); ([1; 5], 9)]) /\
+    let q := snd (trav_ow 5 twT (store s) 1 ([], [([], 1)])) in
+    q = [([1; 5], 3)] /\
+    exists s'', Restore.run true true 5 twT 1 [ODeliver [tw 3]] (Restore.mkSt (store s) q false) = Some s'' /\ pool s'' = [] /\
+                count_of s'' 3 = 1%nat /\ temp_storage twT s'' = [([1; 5], 9)].
+Proof. exact restart_overwrite_refuted. Qed.
+Print Assumptions C20_restart_overwrite_refuted.
+
 (* ---------- part 2b: the blocks stage (added after the third independent mutation round) ---------- *)
 
 (* A block is accepted by the blocks stage only as the next index, only if its Blocks.header hash is the hash of the Blocks.header
